@@ -154,6 +154,8 @@ static size_t field_list(int cnt)
     return n;
 }
 
+static size_t payload_doc(int n) { size_t k = 0; DOC[k++] = 0x42; DOC[k++] = n <= 127 ? 0x18 : n <= 32767 ? 0x19 : 0x1a; DOC[k++] = (uint8_t) n; if (n > 127) DOC[k++] = (uint8_t) (n >> 8); if (n > 32767) { DOC[k++] = (uint8_t) (n >> 16); DOC[k++] = 0; } for (int i = 0; i < n; i++) DOC[k++] = (uint8_t) (i * 7 + 1); DOC[k++] = 0x10; DOC[k++] = 1; DOC[k++] = 0x43; return k; }
+
 /* ------------------------------------------------------------------ painted stack */
 #define STK (1 << 20)
 static uint8_t *stk;
@@ -250,23 +252,24 @@ static void stack_families(bool has_print)
     static const int tower_k[] = { 2, 10, 100, 250 };
     static const int flat_n[] = { 8, 64, 512, 4096 };
     static const int field_n[] = { 8, 64, 512, 4096 };
-    for (int fam = 0; fam < 4; fam++) {
+    static const int payload_n[] = { 200, 1000, 20000, 40000 };      /* one bytes value of n bytes: a scratch buffer sized by the value would show here */
+    for (int fam = 0; fam < 5; fam++) {
         for (int entry = 0; entry < E_NENTRY; entry++) {
             if (!has_print && (entry == E_TOSTRING_NULL || entry == E_TOSTRING || entry == E_PRINT)) continue;
             if (entry == E_LOOKUPS && fam != 3) continue;
             if (entry == E_RAW_WRITER && fam == 2) continue;    /* first element must be a container in every member */
-            if (entry == E_RAW_WRITER && fam == 3) continue;
+            if (entry == E_RAW_WRITER && fam >= 3) continue;
             long first = -2;
             char desc[200];
             vf_count(CT_STACK_FAMILIES, 1);
             for (int m = 0; m < 4; m++) {
                 job_t j;
                 j.entry = entry;
-                int par = fam <= 1 ? tower_k[m] : (fam == 2 ? flat_n[m] : field_n[m]);
-                j.len = fam == 0 ? tower_objects(par) : fam == 1 ? tower_arrays(par) : fam == 2 ? flat_array(par) : field_list(par);
+                int par = fam <= 1 ? tower_k[m] : (fam == 2 ? flat_n[m] : fam == 3 ? field_n[m] : payload_n[m]);
+                j.len = fam == 0 ? tower_objects(par) : fam == 1 ? tower_arrays(par) : fam == 2 ? flat_array(par) : fam == 3 ? field_list(par) : payload_doc(par);
                 j.kind = (fam == 0 || fam == 3) ? VK_OBJ : VK_ARR;
                 snprintf(desc, sizeof desc, "stack high-water of '%s' on family %s, parameter %d (%zu bytes)", entry_name[entry],
-                         fam == 0 ? "nested objects" : fam == 1 ? "nested arrays" : fam == 2 ? "flat array of n elements" : "object with n fields", par, j.len);
+                         fam == 0 ? "nested objects" : fam == 1 ? "nested arrays" : fam == 2 ? "flat array of n elements" : fam == 3 ? "object with n fields" : "one bytes value of n bytes", par, j.len);
                 cur_what = desc;
                 run_painted(&j);                    /* warm-up: libc one-time initialisation off the measured run */
                 snapshot_data();
@@ -455,8 +458,8 @@ int main(int argc, char **argv)
     snprintf(extra, sizeof extra, "\"call_graph_search\": %s", cg && cg[0] ? cg : "\"not run\"");
     static char bound[900];
     snprintf(bound, sizeof bound,
-             "%d shared-object builds of the library ({gcc,clang} x {-O0,-O2,-Os}, with and without print); per build: 4 scaling families (nested objects 2/10/100/250, nested arrays "
-             "2/10/100/250, flat array of 8..4096 x 4 elements, object with 8..4096 fields) x up to 7 entry points on a painted 1 MiB thread stack; product state graph of two parsers and a "
+             "%d shared-object builds of the library ({gcc,clang} x {-O0,-O2,-Os}, with and without print); per build: 5 scaling families (nested objects 2/10/100/250, nested arrays "
+             "2/10/100/250, flat array of 8..4096 x 4 elements, object with 8..4096 fields, one bytes value of 200..40000 bytes) x up to 7 entry points on a painted 1 MiB thread stack; product state graph of two parsers and a "
              "writer on all 9 ordered pairs of 3 documents, all interleavings of 8+8+3 operations to a fixpoint; allocator interposition and writable-segment comparison across every call; "
              "exhaustive search of the compiler-emitted call graph (gcc -fcallgraph-info) from every public entry point",
              NDSO);
